@@ -338,6 +338,7 @@ func TestLifecycle(t *testing.T) {
 		st.Journal(map[string]any{"kind": "lifecycle", "case": c})
 		neg, err := runCase(c, st)
 		if err != nil {
+			ev.G().PinLast()
 			t.Fatalf("C05 violated: %v", err)
 		}
 		// enumerate veto positions (cap)
@@ -350,6 +351,7 @@ func TestLifecycle(t *testing.T) {
 			c2.VetoAt = neg[i]
 			st.Journal(map[string]any{"kind": "lifecycle", "case": c2})
 			if _, err := runCase(c2, st); err != nil {
+				ev.G().PinLast()
 				t.Fatalf("C05 violated (veto at call %d): %v", neg[i], err)
 			}
 		}
@@ -374,6 +376,7 @@ func TestKnownAndRegressions(t *testing.T) {
 	c.Table = tb
 	c.History = []gen.Step{{Op: "add", States: []string{"S0", "S1", "S2"}}}
 	if _, err := runCase(c, st); err != nil {
+		ev.G().PinLast()
 		t.Fatalf("C05 violated (regression): %v", err)
 	}
 }
@@ -399,6 +402,7 @@ func TestReplay(t *testing.T) {
 		t.Fatal(err)
 	}
 	if _, err := runCase(c, nil); err != nil {
+		ev.G().PinLast()
 		t.Fatalf("C05 violated: %v", err)
 	}
 }
